@@ -73,6 +73,37 @@ expand!(c_rc2_expand_t64_e1024, 64, 1024);
 // @ob name=c_rc2_expand_t8_e64 props=C09,C20 kind=bounded tier=thorough bound="key length 8 bytes, effective length 64 bits; every key" fn=rc2::Rc2::expand_key timeout=3600
 expand!(c_rc2_expand_t8_e64, 8, 64);
 
+// Effective lengths that are not multiples of 8 (T8 = ceil(T1/8), TM = 255 mod 2^(8+T1-8*T8)): every residue mod 8 at both
+// ends of the range and the two odd values the RFC's vectors use; 1-byte keys, every key.
+// @ob name=c_rc2_expand_t1_e1b props=C09,C20 kind=bounded bound="key length 1 byte, effective length 1 bits; every key" fn=rc2::Rc2::expand_key timeout=600
+expand!(c_rc2_expand_t1_e1b, 1, 1);
+// @ob name=c_rc2_expand_t1_e2b props=C09,C20 kind=bounded bound="key length 1 byte, effective length 2 bits; every key" fn=rc2::Rc2::expand_key timeout=600
+expand!(c_rc2_expand_t1_e2b, 1, 2);
+// @ob name=c_rc2_expand_t1_e3b props=C09,C20 kind=bounded bound="key length 1 byte, effective length 3 bits; every key" fn=rc2::Rc2::expand_key timeout=600
+expand!(c_rc2_expand_t1_e3b, 1, 3);
+// @ob name=c_rc2_expand_t1_e4b props=C09,C20 kind=bounded bound="key length 1 byte, effective length 4 bits; every key" fn=rc2::Rc2::expand_key timeout=600
+expand!(c_rc2_expand_t1_e4b, 1, 4);
+// @ob name=c_rc2_expand_t1_e5b props=C09,C20 kind=bounded bound="key length 1 byte, effective length 5 bits; every key" fn=rc2::Rc2::expand_key timeout=600
+expand!(c_rc2_expand_t1_e5b, 1, 5);
+// @ob name=c_rc2_expand_t1_e6b props=C09,C20 kind=bounded bound="key length 1 byte, effective length 6 bits; every key" fn=rc2::Rc2::expand_key timeout=600
+expand!(c_rc2_expand_t1_e6b, 1, 6);
+// @ob name=c_rc2_expand_t1_e7b props=C09,C20 kind=bounded bound="key length 1 byte, effective length 7 bits; every key" fn=rc2::Rc2::expand_key timeout=600
+expand!(c_rc2_expand_t1_e7b, 1, 7);
+// @ob name=c_rc2_expand_t1_e12b props=C09,C20 kind=bounded bound="key length 1 byte, effective length 12 bits; every key" fn=rc2::Rc2::expand_key timeout=600
+expand!(c_rc2_expand_t1_e12b, 1, 12);
+// @ob name=c_rc2_expand_t1_e63b props=C09,C20 kind=bounded bound="key length 1 byte, effective length 63 bits; every key" fn=rc2::Rc2::expand_key timeout=600
+expand!(c_rc2_expand_t1_e63b, 1, 63);
+// @ob name=c_rc2_expand_t1_e129b props=C09,C20 kind=bounded bound="key length 1 byte, effective length 129 bits; every key" fn=rc2::Rc2::expand_key timeout=600
+expand!(c_rc2_expand_t1_e129b, 1, 129);
+// @ob name=c_rc2_expand_t1_e1018b props=C09,C20 kind=bounded bound="key length 1 byte, effective length 1018 bits; every key" fn=rc2::Rc2::expand_key timeout=600
+expand!(c_rc2_expand_t1_e1018b, 1, 1018);
+// @ob name=c_rc2_expand_t1_e1020b props=C09,C20 kind=bounded bound="key length 1 byte, effective length 1020 bits; every key" fn=rc2::Rc2::expand_key timeout=600
+expand!(c_rc2_expand_t1_e1020b, 1, 1020);
+// @ob name=c_rc2_expand_t1_e1021b props=C09,C20 kind=bounded bound="key length 1 byte, effective length 1021 bits; every key" fn=rc2::Rc2::expand_key timeout=600
+expand!(c_rc2_expand_t1_e1021b, 1, 1021);
+// @ob name=c_rc2_expand_t1_e1023b props=C09,C20 kind=bounded bound="key length 1 byte, effective length 1023 bits; every key" fn=rc2::Rc2::expand_key timeout=600
+expand!(c_rc2_expand_t1_e1023b, 1, 1023);
+
 // Candidates that were NOT run to completion in the contributing session (expected ~25-40 min each by the linear
 // scaling above); they are deliberately not registered as obligations (`@candidate` is ignored by the ledger):
 // @candidate name=c_rc2_expand_t5_e40 tier=thorough timeout=3600
